@@ -92,7 +92,7 @@ def F(with_=(), without=(), excl=False, ftc=(), qtc=()):
 # Model families (DESIGN.md section 6).  `consts` instantiate ArkGen; `tiers` override per tier.
 
 ALL_INV = ["NoPanic", "Refines", "AOK", "BIndexOK", "BFreeList", "BSpare", "BTables", "BRelIndex", "BCache",
-           "BCacheIds", "UniqueHandles", "DeadNotTarget", "QueriesExact"]
+           "BCacheIds", "UniqueHandles", "DeadNotTarget", "QueriesExact", "BLock", "BOpenRows"]
 
 FAMILIES = {
     "core": dict(
@@ -123,6 +123,65 @@ FAMILIES = {
     ),
 }
 
+FAMILIES["batch"] = dict(
+    consts=dict(CompSeq=["A", "B", "R"], RelSet=S("R"), CapN=1, CapR=1, ResetThr=1, MaxIds=4, MaxGen=1, MaxTabs=10,
+                OpKinds=S("New", "NewBatch", "Remove", "Kill", "AddBatch", "RemoveBatch", "ExchangeBatch", "SetRelBatch", "KillBatch"),
+                NewSets=S(S(), S("A"), S("A", "B"), S("A", "R")), DeltaSets=S(S("A"), S("B"), S("R")),
+                FilterCat=[F(with_=["A"]), F(with_=["B"], without=["A"]), F(with_=["R"], qtc=["R"]), F(), F(with_=["A"], without=["B"])],
+                RegCat=S()),
+    tiers=dict(quick=dict(MaxHist=4, EmitPct=40), thorough=dict(MaxHist=5, EmitPct=20)),
+    exec=dict(comps=["A", "B", "R"]),
+)
+EVENTS = ["OnCreateEntity", "OnRemoveEntity", "OnAddComponents", "OnRemoveComponents", "OnSetComponents",
+          "OnAddRelations", "OnRemoveRelations", "Custom0"]
+
+
+def random_obscat(comps, rel, n):
+    """n observer specifications drawn (seeded) from the whole space over comps; two of them share an event type
+    so that the per-event aggregates of the observer manager interact."""
+    import random
+
+    def mk(seed):
+        r = random.Random(seed * 7919 + 13)
+        cat = []
+        evs = [r.choice(EVENTS) for _ in range(n - 1)]
+        evs.append(evs[0])
+        for ev in evs:
+            pool = rel if ev in ("OnAddRelations", "OnRemoveRelations") else comps
+            obs = [c for c in pool if r.random() < 0.4]
+            w = [c for c in comps if r.random() < 0.25]
+            excl = r.random() < 0.15
+            wo = [] if excl else [c for c in comps if c not in w and r.random() < 0.25]
+            cat.append(dict([("ev", ev), ("obs", S(*obs)), ("with", S(*w)), ("without", S(*wo)), ("excl", excl)]))
+        return cat
+    return mk
+
+
+FAMILIES["obs"] = dict(
+    consts=dict(CompSeq=["A", "R"], RelSet=S("R"), CapN=1, CapR=1, ResetThr=1, MaxIds=3, MaxGen=1, MaxTabs=6, ValMode="const",
+                OpKinds=S("New", "Add", "Remove", "Kill", "SetRel", "Set", "RegO", "Emit", "KillBatch", "SetRelBatch", "NewBatch"),
+                NewSets=S(S(), S("A"), S("A", "R")), DeltaSets=S(S("A"), S("R")),
+                FilterCat=[F(), F(with_=["R"])], RegCat=S()),
+    obscat=random_obscat(["A", "R"], ["R"], 3),
+    tiers=dict(quick=dict(MaxHist=5, EmitPct=4), thorough=dict(MaxHist=6, EmitPct=2)),
+    exec=dict(comps=["A", "R"]),
+)
+FAMILIES["dump"] = dict(
+    consts=dict(CompSeq=["A"], RelSet=S(), CapN=1, CapR=1, ResetThr=1, MaxIds=4, MaxGen=2, MaxTabs=4, ValMode="const",
+                OpKinds=S("New", "Kill", "DumpLoad", "Reset", "NewBatch"),
+                NewSets=S(S(), S("A")), DeltaSets=S(S("A")), FilterCat=[], RegCat=S()),
+    tiers=dict(quick=dict(MaxHist=7, EmitPct=15), thorough=dict(MaxHist=9, EmitPct=5)),
+    exec=dict(comps=["A"]),
+)
+FAMILIES["lock"] = dict(
+    consts=dict(CompSeq=["A", "R"], RelSet=S("R"), CapN=1, CapR=1, ResetThr=1, MaxIds=3, MaxGen=1, MaxTabs=6, MaxLocks=3, MaxOpen=3,
+                ValMode="const",
+                OpKinds=S("New", "Kill", "Set", "QOpen", "RegF", "UnregF", "Reset"),
+                NewSets=S(S("A"), S("A", "R")), DeltaSets=S(S("A")),
+                FilterCat=[F(with_=["A"]), F(with_=["R"], qtc=["R"]), F()], RegCat=S(1, 3)),
+    tiers=dict(quick=dict(MaxHist=7, EmitPct=8), thorough=dict(MaxHist=9, EmitPct=4)),
+    exec=dict(comps=["A", "R"]),
+)
 FAMILIES["shrink"] = dict(
     consts=dict(CompSeq=["R"], RelSet=S("R"), CapN=1, CapR=1, ResetThr=1, MaxIds=4, MaxGen=1, MaxTabs=6, ValMode="const",
                 OpKinds=S("New", "Kill", "SetRel", "Shrink", "Remove", "Add"),
@@ -154,6 +213,8 @@ DRIVES = {
     "obs2": dict(comps=["A", "R", "S"], maxent=8, extra=dict(observers=5), quick=dict(count=300, len=150), thorough=dict(count=6000, len=250)),
     "lock": dict(comps=["A", "B", "R"], maxent=10, extra=dict(queries=6, observers=2), quick=dict(count=300, len=200), thorough=dict(count=6000, len=300)),
     "lock64": dict(comps=["A", "R"], maxent=6, extra=dict(queries=62), quick=dict(count=60, len=400), thorough=dict(count=1000, len=600)),
+    "reset": dict(comps=["A", "B", "R"], maxent=10, extra=dict(observers=3, resetp=25, stats=True), quick=dict(count=300, len=200), thorough=dict(count=5000, len=300)),
+    "reset2": dict(comps=["A", "R", "S"], maxent=8, extra=dict(observers=3, resetp=40, queries=2), quick=dict(count=200, len=200), thorough=dict(count=4000, len=300)),
     "plain": dict(comps=["A", "B", "C"], maxent=40, quick=dict(count=100, len=400), thorough=dict(count=1500, len=800)),
 }
 
@@ -188,11 +249,18 @@ PLANS = {
 PROP_CFG = {
     "C10": (dict(probes=0, misuse=10), dict(probes=0, misuse=-1)),
 }
-PLANS["C08"] = [("drive:obs", ["typed1", "unsafe2", "typed11"]), ("drive:obs2", ["typed11", "unsafe1"])]
-PLANS["C09"] = [("drive:obs", ["typed1", "unsafe2", "typed11"]), ("drive:obs2", ["typed11", "unsafe1"])]
+PLANS["C08"] = [("obsmodel", []), ("obs", ["typed1", "unsafe2", "typed11"]), ("drive:obs", ["typed1", "unsafe2", "typed11"]), ("drive:obs2", ["typed11", "unsafe1"])]
+PLANS["C09"] = [("obs", ["typed1", "unsafe2", "typed11"]), ("drive:obs", ["typed1", "unsafe2", "typed11"]), ("drive:obs2", ["typed11", "unsafe1"])]
 PROP_CFG["C08"] = (dict(probes=1), dict(probes=2))
 PROP_CFG["C09"] = (dict(probes=1), dict(probes=2))
-PLANS["C07"] = [("drive:lock", ["typed1", "unsafe2", "typed11"]), ("drive:lock64", ["typed1", "unsafe1"])]
+PLANS["C06"] = [("batch", ["typed1", "typed11", "exch8", "typed53"]), ("drive:wide", ["typed1", "exch8", "typed53"]),
+                ("drive:rel2", ["typed11", "typed1"])]
+PLANS["C19"] = [("core", ["typed1", "unsafe1"]), ("cache", ["typed1", "unsafe2"]),
+                ("drive:wide", ["typed1", "unsafe2", "typed53"]), ("drive:lock", ["typed1", "unsafe1"]), ("drive:obs", ["typed11"])]
+PROP_CFG["C19"] = (dict(probes=1, stats=True), dict(probes=2, stats=True))
+PLANS["C16"] = [("cache", ["typed1", "unsafe2"]), ("drive:reset", ["typed1", "unsafe2", "typed11"]), ("drive:reset2", ["typed11", "unsafe1"])]
+PLANS["C17"] = [("dump", ["typed1", "unsafe2", "typed53"]), ("drive:reset", ["typed1", "unsafe2", "typed11", "typed53"]), ("drive:reset2", ["typed11", "unsafe1"])]
+PLANS["C07"] = [("lock", ["typed1", "unsafe2", "typed11"]), ("drive:lock", ["typed1", "unsafe2", "typed11"]), ("drive:lock64", ["typed1", "unsafe1"])]
 PROP_CFG["C07"] = (dict(probes=2, misuse=8), dict(probes=4, misuse=-1))
 PLANS["C10"] = [("core", ["typed1", "unsafe1", "exch8"]), ("rel", ["typed1", "unsafe1", "typed11"])]
 
@@ -240,7 +308,9 @@ def build_executor(ctx, tags="verif"):
 def write_model(ctx, fam, over=None, inv=None):
     """Instantiate family `fam` as MC_<fam>.tla + cfg in the work directory."""
     f = FAMILIES[fam]
-    consts = dict(ValMode="ord", EmitPct=100, EmitSeed=ctx.seed, EmitMode="all")
+    consts = dict(ValMode="ord", EmitPct=100, EmitSeed=ctx.seed, EmitMode="all", MaxLocks=3, MaxOpen=2, ObsCat=[])
+    if f.get("obscat"):
+        consts["ObsCat"] = f["obscat"](ctx.seed)
     consts.update(f["consts"])
     consts.update(f["tiers"][ctx.tier])
     if over:
@@ -270,7 +340,7 @@ def parse_tlc_stats(text):
     return (int(m.group(1)), int(m.group(2))) if m else (0, 0)
 
 
-OBSERVABLE_INV = ["NoPanic", "Refines", "AOK", "UniqueHandles", "QueriesExact"]
+OBSERVABLE_INV = ["NoPanic", "Refines", "AOK", "UniqueHandles", "QueriesExact", "BOpenRows"]
 
 
 def run_generator(ctx, fam, timeout, invariants=None):
@@ -465,6 +535,43 @@ def drive_family(ctx, name, cells, probes, extra_cfg=None):
     ctx.stats["families"].append(dict(family="drive:" + name, histories=per * len(jobs), ops_each=t["len"], maxent=dr["maxent"]))
 
 
+def run_obs_model(ctx):
+    """Design check of the observer manager (ArkObs.tla): aggregates, early-outs, batch loops, recomputation on
+    unregistration against Fires from the documentation, for every set of <= MaxReg observers of the whole
+    specification space, one TLC run per event type."""
+    d = os.path.join(ctx.work, "model-obsdispatch")
+    os.makedirs(d, exist_ok=True)
+    for t in glob.glob(os.path.join(SPEC, "*.tla")):
+        shutil.copy(t, d)
+    open(os.path.join(d, "MC_obs.tla"), "w").write(
+        '---- MODULE MC_obs ----\nEXTENDS ArkObs\nmc_Comp == {"A", "R"}\nmc_Rel == {"R"}\n====\n')
+    maxreg = 2 if ctx.tier == "quick" else 3
+    evs = ["OnCreateEntity", "OnRemoveEntity", "OnAddComponents", "OnRemoveComponents", "OnSetComponents", "OnAddRelations",
+           "OnRemoveRelations", "Custom0"]
+
+    def one(ev):
+        cfg = os.path.join(d, "obs_%s.cfg" % ev)
+        open(cfg, "w").write('SPECIFICATION Spec\nCONSTANTS\n  Comp <- mc_Comp\n  Rel <- mc_Rel\n  Ev = "%s"\n  MaxReg = %d\n'
+                             'INVARIANTS DispatchOK AggOK\nCHECK_DEADLOCK FALSE\n' % (ev, maxreg))
+        p, dt = run(["tlc", "-workers", "4", "-metadir", os.path.join(d, "meta_" + ev), "-config", cfg, "MC_obs.tla"], 1200, cwd=d)
+        gen, dist = parse_tlc_stats(p.stdout)
+        if "Model checking completed. No error has been found" not in p.stdout:
+            m = re.search(r"Invariant (\w+) is violated", p.stdout)
+            return ev, gen, dist, (m.group(1) if m else "error: " + p.stdout[-1500:])
+        return ev, gen, dist, None
+    with ThreadPoolExecutor(max_workers=4) as ex:
+        res = list(ex.map(one, evs))
+    for ev, gen, dist, bad in res:
+        ctx.stats["states"] += dist
+        ctx.stats["transitions"] += gen
+        ctx.stats["families"].append(dict(family="obsdispatch:" + ev, states=dist, transitions=gen, maxreg=maxreg))
+        if bad:
+            if bad.startswith("error"):
+                raise Inconclusive("ArkObs failed for %s: %s" % (ev, bad))
+            ctx.stats["design_findings"].append(dict(family="obsdispatch:" + ev, invariant=bad))
+    ctx.stats["tlc_cmds"].append("tlc -config obs_<event>.cfg MC_obs.tla  # ArkObs, MaxReg=%d, 8 event types" % maxreg)
+
+
 def choose_cells(ctx, cells):
     if ctx.tier == "thorough" or len(cells) <= 2:
         return cells
@@ -629,6 +736,9 @@ def check_generic(ctx):
     quick = ctx.tier == "quick"
     for fam, cells in plan:
         pc = PROP_CFG.get(ctx.pid, (dict(probes=6), dict(probes=24)))[0 if quick else 1]
+        if fam == "obsmodel":
+            run_obs_model(ctx)
+            continue
         if fam.startswith("drive:"):
             drive_family(ctx, fam[6:], cells, pc.get("probes", 0),
                          extra_cfg={k: v for k, v in pc.items() if k != "probes"})
@@ -654,7 +764,7 @@ def check_generic(ctx):
             continue
         ctx.stats["sequences"] += gen["nseq"]
         # quick tier: replay a seed-chosen sample of the transitions sized to the budget
-        nbfs = len([1 for f, _ in plan if not f.startswith("drive:")])
+        nbfs = max(1, len([1 for f, _ in plan if not f.startswith("drive:") and f != "obsmodel"]))
         budget = (400000 // nbfs) if quick else 10 ** 9   # events per family
         cs = choose_cells(ctx, cells)
         per_seq = FAMILIES[fam]["tiers"][ctx.tier]["MaxHist"] + 7
